@@ -945,7 +945,35 @@ def cache_key_injective(rec, F):
             if n in ("skip", "split_first", "split_last", "skip_while", "take", "step_by", "last", "nth", "rev"):
                 drops.append((n, t["sp"]))
             if n == "next" and b.kind != "Closure" and b is not fp and "Iterator" in (t.get("decl") or ""):
-                drops.append(("next()", t["sp"]))   # an element pulled off the segments before they are collected
+                # an element pulled off the segments before they are collected - unless it is handed to the key builder as
+                # well (`let (package, path) = extract(..); full_import_path(package, &path)`)
+                readded = False
+                for c_, bi_ in users_sites(F, fp):
+                    t_ = c_.blocks[bi_]["t"]
+                    roots_ = []
+                    for a_ in t_["args"][1:]:
+                        r_ = c_.root_of(a_)
+                        for _k in range(8):
+                            if r_[0] == "place":
+                                r_ = c_.root_of({"copy": {"l": r_[1]["l"], "p": []}})
+                            elif r_[0] == "call" and r_[1]["f"] != b.path and r_[1]["args"]:
+                                r_ = c_.root_of(r_[1]["args"][0])
+                            else:
+                                break
+                        roots_.append(r_)
+                    from_prod = [r_ for r_ in roots_ if r_[0] == "call" and r_[1]["f"] == b.path]
+                    if len(from_prod) >= 2 and len(set(id(r_[1]) for r_ in from_prod)) == 1:
+                        # two different components of the producer's result reach the key builder; it must use both
+                        used_params = set()
+                        for body_ in [fp] + list(F.closures_of(fp)):
+                            for _, t2_ in body_.calls():
+                                for a2_ in t2_["args"]:
+                                    r2_ = body_.root_of(a2_)
+                                    if r2_[0] == "arg":
+                                        used_params.add(r2_[1])
+                        readded = len([i_ for i_ in range(2, fp.argc + 1) if i_ in used_params]) >= 2
+                if not readded:
+                    drops.append(("next()", t["sp"]))
             if n == "push" and len(t["args"]) > 1 and t["args"][1].get("const"):
                 sep = True
             if n == "join" and len(t["args"]) > 1:
